@@ -233,13 +233,13 @@ func c14NewProbe() *c14Probe {
 	return p
 }
 
-func (p *c14Probe) loadFromDisk(ledgerForTracker, basics.Round) error      { return nil }
-func (p *c14Probe) newBlock(bookkeeping.Block, ledgercore.StateDelta)     {}
-func (p *c14Probe) prepareCommit(*deferredCommitContext) error            { return nil }
-func (p *c14Probe) close()                                                {}
-func (p *c14Probe) handleUnorderedCommit(*deferredCommitContext)          {}
-func (p *c14Probe) handlePrepareCommitError(*deferredCommitContext)       {}
-func (p *c14Probe) handleCommitError(*deferredCommitContext)              {}
+func (p *c14Probe) loadFromDisk(ledgerForTracker, basics.Round) error          { return nil }
+func (p *c14Probe) newBlock(bookkeeping.Block, ledgercore.StateDelta)          {}
+func (p *c14Probe) prepareCommit(*deferredCommitContext) error                 { return nil }
+func (p *c14Probe) close()                                                     {}
+func (p *c14Probe) handleUnorderedCommit(*deferredCommitContext)               {}
+func (p *c14Probe) handlePrepareCommitError(*deferredCommitContext)            {}
+func (p *c14Probe) handleCommitError(*deferredCommitContext)                   {}
 func (p *c14Probe) postCommitUnlocked(context.Context, *deferredCommitContext) {}
 func (p *c14Probe) clearCommitRoundRetry(context.Context, *deferredCommitContext) {
 }
@@ -302,6 +302,17 @@ type c14Node struct {
 	ops    int64 // executed operations (blocks added, reloads)
 	// configuration to switch to at the next restart (LateEnable)
 	cfgAfter *config.Local
+}
+
+// setTracking arranges for the NEXT restart to switch catchpoint tracking off
+// (CatchpointTracking=-1, an operator disabling catchpoints) or back to the node's own
+// catchpoint configuration.
+func (n *c14Node) setTracking(on bool) {
+	cfg := c14LocalConfig(n.ncfg)
+	if !on {
+		cfg.CatchpointTracking = -1
+	}
+	n.cfgAfter = &cfg
 }
 
 // tracking reports whether the node currently maintains the balances trie / labels.
@@ -907,21 +918,21 @@ func c14HistMixed(t testing.TB, dir string, name string, proto protocol.Consensu
 func c14HistBoxes(t testing.TB, dir string, proto protocol.ConsensusVersion, rounds int) *c14History {
 	b := c14NewBuilder(t, "boxes", proto, dir)
 	a := b.gen.addrs
-	app := b.createApp(a[0])                                // r1
-	b.block(c14Pay(a[0], app.Address(), 5_000_000))         // r2
-	b.block(c14Call(a[1], app, "bput", "a", "1"))           // r3
-	b.block(c14Call(a[1], app, "bput", "b", "22"))          // r4
-	b.block(c14Call(a[2], app, "bput", "a", "2"))           // r5 replace
-	b.block(c14Call(a[2], app, "bput", "a", "3"))           // r6 replace again
-	b.block(c14Call(a[2], app, "bdel", "b"))                // r7
-	b.block(c14Call(a[3], app, "bput", "b", "22"))          // r8 re-created with the old content
-	b.block(c14Call(a[3], app, "bres", "a", "\x00\x00\x00\x00\x00\x00\x00\x04")) // r9 resize
-	b.block(c14Call(a[3], app, "bput", "c", ""))            // r10 empty box
-	b.block(c14Call(a[1], app, "bput", "t", "x"), c14Call(a[2], app, "bdel", "t")) // r11 came and went in one block
-	b.block(c14Call(a[1], app, "bput", "t2", "x"))          // r12
-	b.block(c14Call(a[1], app, "bdel", "t2"), c14Call(a[4], app, "bput", "e", "")) // r13 t2 came and went across blocks; zero-length box e created
+	app := b.createApp(a[0])                                                          // r1
+	b.block(c14Pay(a[0], app.Address(), 5_000_000))                                   // r2
+	b.block(c14Call(a[1], app, "bput", "a", "1"))                                     // r3
+	b.block(c14Call(a[1], app, "bput", "b", "22"))                                    // r4
+	b.block(c14Call(a[2], app, "bput", "a", "2"))                                     // r5 replace
+	b.block(c14Call(a[2], app, "bput", "a", "3"))                                     // r6 replace again
+	b.block(c14Call(a[2], app, "bdel", "b"))                                          // r7
+	b.block(c14Call(a[3], app, "bput", "b", "22"))                                    // r8 re-created with the old content
+	b.block(c14Call(a[3], app, "bres", "a", "\x00\x00\x00\x00\x00\x00\x00\x04"))      // r9 resize
+	b.block(c14Call(a[3], app, "bput", "c", ""))                                      // r10 empty box
+	b.block(c14Call(a[1], app, "bput", "t", "x"), c14Call(a[2], app, "bdel", "t"))    // r11 came and went in one block
+	b.block(c14Call(a[1], app, "bput", "t2", "x"))                                    // r12
+	b.block(c14Call(a[1], app, "bdel", "t2"), c14Call(a[4], app, "bput", "e", ""))    // r13 t2 came and went across blocks; zero-length box e created
 	b.block(c14Call(a[1], app, "bput", "a", "zzzz"), c14Call(a[4], app, "bdel", "e")) // r14 zero-length box deleted in the next round
-	b.block(c14Call(a[1], app, "bdel", "c"))                // r15
+	b.block(c14Call(a[1], app, "bdel", "c"))                                          // r15
 	for len(b.h.Blocks) < rounds {
 		r := len(b.h.Blocks) + 1
 		switch r % 4 {
@@ -949,19 +960,19 @@ func c14HistAssets(t testing.TB, dir string, proto protocol.ConsensusVersion, ro
 	ps := b.block(mk(a[0], "A", 1_000_000), mk(a[1], "B", 500)) // r1
 	asA, asB := ps[0].ConfigAsset, ps[1].ConfigAsset
 	b.block(c14Axfer(asA, a[2], a[2], 0), c14Axfer(asA, a[3], a[3], 0), c14Axfer(asB, a[2], a[2], 0)) // r2
-	b.block(c14Axfer(asA, a[0], a[2], 10))                                                           // r3
-	b.block(c14Axfer(asA, a[0], a[2], 10))                                                           // r4
-	b.block(c14Axfer(asA, a[2], a[3], 5))                                                            // r5
-	b.block(c14Axfer(asA, a[3], a[2], 5))                                                            // r6 a3 back to 0
-	b.block(c14Axfer(asB, a[1], a[2], 100))                                                          // r7
-	ps = b.block(mk(a[4], "T", 7))                                                                   // r8 temp asset
+	b.block(c14Axfer(asA, a[0], a[2], 10))                                                            // r3
+	b.block(c14Axfer(asA, a[0], a[2], 10))                                                            // r4
+	b.block(c14Axfer(asA, a[2], a[3], 5))                                                             // r5
+	b.block(c14Axfer(asA, a[3], a[2], 5))                                                             // r6 a3 back to 0
+	b.block(c14Axfer(asB, a[1], a[2], 100))                                                           // r7
+	ps = b.block(mk(a[4], "T", 7))                                                                    // r8 temp asset
 	asT := ps[0].ConfigAsset
-	b.block(&txntest.Txn{Type: "acfg", Sender: a[4], ConfigAsset: asT})                              // r9 destroyed
-	b.block(&txntest.Txn{Type: "axfer", Sender: a[3], AssetReceiver: a[0], XferAsset: asA, AssetCloseTo: a[0]}) // r10 close-out
-	b.block(c14Axfer(asA, a[3], a[3], 0))                                                            // r11 opt-in again
+	b.block(&txntest.Txn{Type: "acfg", Sender: a[4], ConfigAsset: asT})                                                                                              // r9 destroyed
+	b.block(&txntest.Txn{Type: "axfer", Sender: a[3], AssetReceiver: a[0], XferAsset: asA, AssetCloseTo: a[0]})                                                      // r10 close-out
+	b.block(c14Axfer(asA, a[3], a[3], 0))                                                                                                                            // r11 opt-in again
 	b.block(&txntest.Txn{Type: "acfg", Sender: a[0], ConfigAsset: asA, AssetParams: basics.AssetParams{Manager: a[5], Reserve: a[0], Freeze: a[0], Clawback: a[0]}}) // r12 reconfigure
-	b.block(&txntest.Txn{Type: "afrz", Sender: a[0], FreezeAccount: a[2], FreezeAsset: asA, AssetFrozen: true})  // r13
-	b.block(&txntest.Txn{Type: "afrz", Sender: a[0], FreezeAccount: a[2], FreezeAsset: asA, AssetFrozen: false}) // r14 back
+	b.block(&txntest.Txn{Type: "afrz", Sender: a[0], FreezeAccount: a[2], FreezeAsset: asA, AssetFrozen: true})                                                      // r13
+	b.block(&txntest.Txn{Type: "afrz", Sender: a[0], FreezeAccount: a[2], FreezeAsset: asA, AssetFrozen: false})                                                     // r14 back
 	for len(b.h.Blocks) < rounds {
 		r := len(b.h.Blocks) + 1
 		if r%2 == 0 {
@@ -979,19 +990,19 @@ func c14HistAccounts(t testing.TB, dir string, proto protocol.ConsensusVersion, 
 	b := c14NewBuilder(t, "accounts", proto, dir)
 	a := b.gen.addrs
 	f := b.gen.fresh
-	b.block(c14Pay(a[2], f[0], 1_000_000), c14Pay(a[2], f[1], 1_000_000))                                      // r1
-	b.block(c14KeyregOnline(a[2], 0x61))                                                                       // r2
-	b.block(c14Pay(a[0], a[2], 5_000_000))                                                                     // r3 online stake changes
-	b.block(c14Pay(a[2], a[0], 1_000_000))                                                                     // r4
-	b.block(&txntest.Txn{Type: "pay", Sender: f[0], Receiver: a[3], Amount: 1, CloseRemainderTo: a[3]})        // r5 closed
-	b.block(c14Pay(a[3], f[0], 200_000))                                                                       // r6 re-created
-	b.block(&txntest.Txn{Type: "keyreg", Sender: a[2]})                                                        // r7 offline
-	b.block(c14KeyregOnline(a[2], 0x71))                                                                       // r8 online again, other keys
-	b.block()                                                                                                  // r9
-	b.block(&txntest.Txn{Type: "pay", Sender: a[4], Receiver: a[4], Amount: 0, RekeyTo: a[5]})                 // r10
-	b.block(c14KeyregOnline(f[1], 0x81))                                                                       // r11 a fresh account goes online
-	b.block(&txntest.Txn{Type: "keyreg", Sender: a[1]})                                                        // r12 genesis online account goes offline
-	b.block(&txntest.Txn{Type: "keyreg", Sender: a[6], Nonparticipation: true})                                // r13
+	b.block(c14Pay(a[2], f[0], 1_000_000), c14Pay(a[2], f[1], 1_000_000))                               // r1
+	b.block(c14KeyregOnline(a[2], 0x61))                                                                // r2
+	b.block(c14Pay(a[0], a[2], 5_000_000))                                                              // r3 online stake changes
+	b.block(c14Pay(a[2], a[0], 1_000_000))                                                              // r4
+	b.block(&txntest.Txn{Type: "pay", Sender: f[0], Receiver: a[3], Amount: 1, CloseRemainderTo: a[3]}) // r5 closed
+	b.block(c14Pay(a[3], f[0], 200_000))                                                                // r6 re-created
+	b.block(&txntest.Txn{Type: "keyreg", Sender: a[2]})                                                 // r7 offline
+	b.block(c14KeyregOnline(a[2], 0x71))                                                                // r8 online again, other keys
+	b.block()                                                                                           // r9
+	b.block(&txntest.Txn{Type: "pay", Sender: a[4], Receiver: a[4], Amount: 0, RekeyTo: a[5]})          // r10
+	b.block(c14KeyregOnline(f[1], 0x81))                                                                // r11 a fresh account goes online
+	b.block(&txntest.Txn{Type: "keyreg", Sender: a[1]})                                                 // r12 genesis online account goes offline
+	b.block(&txntest.Txn{Type: "keyreg", Sender: a[6], Nonparticipation: true})                         // r13
 	for len(b.h.Blocks) < rounds {
 		r := len(b.h.Blocks) + 1
 		switch r % 3 {
@@ -1016,17 +1027,17 @@ func c14HistApps(t testing.TB, dir string, proto protocol.ConsensusVersion, roun
 	optin := func(s basics.Address, app basics.AppIndex) *txntest.Txn {
 		return &txntest.Txn{Type: "appl", Sender: s, ApplicationID: app, OnCompletion: transactions.OptInOC}
 	}
-	b.block(optin(a[2], app1), optin(a[3], app1), optin(a[2], app2))                                   // r3
-	b.block(c14Call(a[2], app1, "lset", "k", "v1"), c14Call(a[0], app1, "gset", "g", "1"))             // r4
-	b.block(c14Call(a[2], app1, "lset", "k", "v2"), c14Call(a[0], app1, "gset", "g", "2"))             // r5
-	b.block(c14Call(a[2], app1, "ldel", "k"), c14Call(a[0], app1, "gdel", "g"))                        // r6
-	b.block(c14Call(a[2], app1, "lset", "k", "v1"), c14Call(a[0], app1, "gset", "g", "1"))             // r7 back to r4's values
-	b.block(&txntest.Txn{Type: "appl", Sender: a[3], ApplicationID: app1, OnCompletion: transactions.CloseOutOC}) // r8
-	b.block(&txntest.Txn{Type: "appl", Sender: a[2], ApplicationID: app2, OnCompletion: transactions.ClearStateOC}) // r9
-	b.block(c14Call(a[4], app2, "gint", "n", "\x00\x00\x00\x00\x00\x00\x00\x01"))                      // r10
-	b.block(c14Call(a[4], app2, "gint", "n", "\x00\x00\x00\x00\x00\x00\x00\x02"))                      // r11
+	b.block(optin(a[2], app1), optin(a[3], app1), optin(a[2], app2))                                                       // r3
+	b.block(c14Call(a[2], app1, "lset", "k", "v1"), c14Call(a[0], app1, "gset", "g", "1"))                                 // r4
+	b.block(c14Call(a[2], app1, "lset", "k", "v2"), c14Call(a[0], app1, "gset", "g", "2"))                                 // r5
+	b.block(c14Call(a[2], app1, "ldel", "k"), c14Call(a[0], app1, "gdel", "g"))                                            // r6
+	b.block(c14Call(a[2], app1, "lset", "k", "v1"), c14Call(a[0], app1, "gset", "g", "1"))                                 // r7 back to r4's values
+	b.block(&txntest.Txn{Type: "appl", Sender: a[3], ApplicationID: app1, OnCompletion: transactions.CloseOutOC})          // r8
+	b.block(&txntest.Txn{Type: "appl", Sender: a[2], ApplicationID: app2, OnCompletion: transactions.ClearStateOC})        // r9
+	b.block(c14Call(a[4], app2, "gint", "n", "\x00\x00\x00\x00\x00\x00\x00\x01"))                                          // r10
+	b.block(c14Call(a[4], app2, "gint", "n", "\x00\x00\x00\x00\x00\x00\x00\x02"))                                          // r11
 	b.block(&txntest.Txn{Type: "appl", Sender: a[1], ApplicationID: app2, OnCompletion: transactions.DeleteApplicationOC}) // r12
-	b.block(optin(a[3], app1))                                                                          // r13 again
+	b.block(optin(a[3], app1))                                                                                             // r13 again
 	for len(b.h.Blocks) < rounds {
 		r := len(b.h.Blocks) + 1
 		if r%2 == 0 {
@@ -1058,12 +1069,12 @@ func c14HistQuiet(t testing.TB, dir string, proto protocol.ConsensusVersion, rou
 
 // c14Obs is what one run of a history on one node made observable.
 type c14Obs struct {
-	Labels     map[basics.Round]string                            // catchpoint round -> label
-	FirstStage map[basics.Round]trackerdb.CatchpointFirstStageInfo // accounts round -> record
-	Roots      map[basics.Round]crypto.Digest                     // tracker db round -> balances trie root
-	Flushes    []c14FlushRec
+	Labels      map[basics.Round]string                             // catchpoint round -> label
+	FirstStage  map[basics.Round]trackerdb.CatchpointFirstStageInfo // accounts round -> record
+	Roots       map[basics.Round]crypto.Digest                      // tracker db round -> balances trie root
+	Flushes     []c14FlushRec
 	LogProblems int
-	LogMsgs    []string
+	LogMsgs     []string
 }
 
 func c14NewObs() *c14Obs {
@@ -1127,6 +1138,11 @@ type c14Plan struct {
 	// longer range.
 	Crash    bool
 	CrashLag int
+	// tracking pause: restart with catchpoint tracking switched OFF after round PauseAt, restart
+	// with tracking ON again after round ResumeAt (0 = no pause). While paused the node keeps
+	// flushing according to Flush; the balances trie is not maintained and must be rebuilt from
+	// the tables at the resume.
+	PauseAt, ResumeAt int
 }
 
 // c14Run replays the history on the node according to the plan.
@@ -1167,6 +1183,25 @@ func c14RunHook(n *c14Node, h *c14History, p c14Plan, hook func(step int, restar
 		}
 		if hook != nil {
 			hook(i+1, restarted, o)
+		}
+		if p.ResumeAt > p.PauseAt && (i+1 == p.PauseAt || i+1 == p.ResumeAt) {
+			n.setTracking(i+1 == p.ResumeAt)
+			var err error
+			if p.Reopen {
+				err = n.reopen()
+			} else {
+				err = n.reload()
+			}
+			if err != nil {
+				return o, fmt.Errorf("restart (tracking pause) after round %d: %v", i+1, err)
+			}
+			restarted = true
+			if err := n.observe(o, &last); err != nil {
+				return o, err
+			}
+			if hook != nil {
+				hook(i+1, restarted, o)
+			}
 		}
 		if p.RestartAt == i+1 {
 			var err error
@@ -1518,7 +1553,6 @@ func (f *c14File) chunkIdx() []int {
 	}
 	return out
 }
-
 
 func c14RemoveAll(dir string) {
 	_ = os.RemoveAll(dir)
